@@ -213,6 +213,26 @@ def check(case):
             ok, err = _close(val, r, 2 * tolc)
         require(ok, "var:" + nm, "%s.%s differs from its definition (err %.3g, tol %.3g)" % (name, nm, err, tolc))
         # average() goes through the same variable
+    # --------------------------------------------------------------- the field is then advanced IN PLACE (one step of the one-stage explicit integrator, which updates its
+    # argument) and every variable is asked again: it describes the state the field holds NOW.  Reference: the model's own nameddata on a fresh field of the new data
+    # (itself judged above on another state), so this is only about the field object remembering its past.
+    try:
+        dt = 0.05 * float(np.min(disc.calc_timestep(field, 1.0)))
+        if np.isfinite(dt) and dt > 0:
+            cases.build_integrator("explicit", mesh, disc).step(field, dt)
+            newdata = [np.array(d, dtype=float, copy=True) for d in field.data]
+            if all(np.all(np.isfinite(d)) for d in newdata) and any(float(np.max(np.abs(a - b))) > 0 for a, b in zip(newdata, keep_field)):
+                fresh = cases.build_field(model, mesh, newdata)
+                for nm in names:
+                    vnow = np.asarray(field.phydata(nm), dtype=float)
+                    vref = np.asarray(fresh.phydata(nm), dtype=float)
+                    if not np.all(np.isfinite(vref)):
+                        continue
+                    require(vnow.shape == vref.shape and np.array_equal(vnow, vref), "var-after-inplace-update", "%s.%s of a field that was evaluated, then advanced in place by explicit.step, is not that of "
+                            "the state it holds now (max difference %.3g)" % (name, nm, float(np.max(np.abs(vnow - vref))) if vnow.shape == vref.shape else float("nan")))
+                labels.append("advanced-in-place")
+    except (FloatingPointError, ZeroDivisionError):
+        pass
     # --------------------------------------------------------------- whole-number states held in integer arrays (rho = 2, a Sod tube written np.where(x < .5, 8, 1))
     def _whole(x, lo, hi):
         return np.clip(np.rint(np.asarray(x, dtype=float)), lo, hi).astype(np.int64)
